@@ -6,6 +6,11 @@ struct nv_tensor2d { int64_t rows, cols; uint64_t id; uint64_t by; };   /* tenso
 struct nv_indices { int64_t n; uint64_t id; };                  /* indices_t: size + ghost identity of the index list */
 struct nv_vec { uint64_t size; };                               /* rwlearners_t (std::vector): only the number of learners */
 struct nv_early_stopping { uint64_t m_round; double m_value; struct nv_tensor2d m_values; };
+/* bit pattern of a double: `NV_IDENT(a, b)` = the very same double (tells -0.0 from 0.0, one NaN from another); values that flow
+ * into the uninterpreted NV_F* operations must be identified this way (congruence is over bit patterns) */
+union nv_bits { double d; uint64_t u; };
+#define NV_BITS(x) (((union nv_bits){ .d = (x) }).u)
+#define NV_IDENT(a, b) (NV_BITS(a) == NV_BITS(b))
 /* ghost identities of tensor contents: every producer of new contents draws a fresh identity */
 uint64_t nv_id_counter;
 static uint64_t nv_fresh_id(void) { __CPROVER_assume(nv_id_counter < UINT64_MAX - 1); nv_id_counter = nv_id_counter + 1; return nv_id_counter; }
